@@ -131,12 +131,12 @@ def build_net(sc: Dict[str, Any]):
             return x
 
     net = SeqNet(sc)
-    init_generic(net, sc["wseed"], float(sc.get("gain", 1.0)))
+    init_generic(net, sc["wseed"], float(sc.get("gain", 1.0)), float(sc.get("bias_gain", 1.0)))
     net.eval()
     return net
 
 
-def init_generic(net, wseed: int, gain: float = 1.0) -> None:
+def init_generic(net, wseed: int, gain: float = 1.0, bias_gain: float = 1.0) -> None:
     """generic (random, non-degenerate) weights, biases and BN statistics; every channel with its own magnitude"""
     import torch
     import torch.nn as nn
@@ -149,7 +149,7 @@ def init_generic(net, wseed: int, gain: float = 1.0) -> None:
                 wgt = (torch.rand(m.weight.shape, generator=g) * 2 - 1)
                 m.weight.copy_(wgt * mag.view(-1, *([1] * (wgt.dim() - 1))) * 2.0 * gain)
                 if m.bias is not None:
-                    m.bias.copy_((torch.rand(m.bias.shape, generator=g) * 2 - 1) * 0.5)
+                    m.bias.copy_((torch.rand(m.bias.shape, generator=g) * 2 - 1) * 0.5 * bias_gain)
             elif isinstance(m, (nn.BatchNorm2d, nn.BatchNorm1d)):
                 m.weight.copy_(0.5 + torch.rand(m.weight.shape, generator=g))
                 m.bias.copy_((torch.rand(m.bias.shape, generator=g) * 2 - 1) * 0.3)
